@@ -86,6 +86,18 @@ fn nasty_bytes() -> impl Strategy<Value = Vec<u8>> {
         3 => proptest::collection::vec(any::<u8>(), 0..=40),
         2 => proptest::collection::vec(prop_oneof![Just(b'"'), Just(b'\\'), Just(0u8), Just(1u8), Just(0x1fu8), Just(0x7fu8), Just(b'/'), Just(b'a'), Just(0xc3u8), Just(0xa9u8), Just(0xe2u8), Just(0x80u8), Just(0xa8u8), Just(0xffu8), Just(b'\n'), Just(b'\t')], 0..=24),
         1 => proptest::collection::vec(any::<u8>(), 200..=255),
+        // whole characters: the code points that text formats single out (line and paragraph
+        // separator, next line, byte order mark, replacement character, noncharacters, the
+        // first and last of every encoded length, bidi override, combining accent)
+        3 => proptest::collection::vec(
+            prop_oneof![
+                Just('\u{2028}'), Just('\u{2029}'), Just('\u{85}'), Just('\u{a0}'), Just('\u{feff}'), Just('\u{fffd}'), Just('\u{fffe}'), Just('\u{ffff}'),
+                Just('\u{10ffff}'), Just('\u{1f600}'), Just('\u{0}'), Just('\u{7f}'), Just('\u{80}'), Just('\u{7ff}'), Just('\u{800}'), Just('\u{d7ff}'),
+                Just('\u{e000}'), Just('\u{10000}'), Just('\u{301}'), Just('\u{202e}'), Just('"'), Just('\\'), Just('a'), Just('/'), Just('\u{1b}'),
+            ],
+            1..=12,
+        )
+        .prop_map(|cs| cs.into_iter().collect::<String>().into_bytes()),
         1 => "[a-z0-9-]{1,16}".prop_map(|s| s.into_bytes()),
         1 => Just(vec![]),
     ]
@@ -790,6 +802,7 @@ pub fn run_flags_and_lease_times(ctx: &Ctx, rig: &DhcpWire, flags: &[u16]) {
 pub fn hostile_dhcp_strategy() -> impl Strategy<Value = DhcpWireCase> {
     let mut seeds = mutate::dhcp_seeds();
     seeds.extend(mutate::dhcp_nested());
+    seeds.extend(mutate::dhcp_long_split().into_iter().step_by(3));
     let ns = seeds.len();
     let one = (any::<u16>(), any::<u32>(), proptest::collection::vec((any::<u16>(), any::<u8>()), 0..3)).prop_map(move |(si, fam, edits)| {
         let seed = &seeds[pick_idx(si, ns)];
@@ -1003,7 +1016,34 @@ pub fn run_c08_http(ctx: &Ctx) {
 
 pub fn run_c05_dhcp_wire(ctx: &Ctx) {
     match DhcpWire::new("C05") {
-        Ok(rig) => run_wire(ctx, &rig, hostile_dhcp_strategy(), ctx.tier.pick(24, 400), 1),
+        Ok(rig) => {
+            // the options-longer-than-one-instance family, every member, in batches of 48
+            let fam = mutate::dhcp_long_split();
+            for chunk in fam.chunks(48) {
+                let case = DhcpWireCase { hostile: chunk.iter().map(|b| HexBytes(b.clone())).collect() };
+                let mut out = exec_one(&rig, &case);
+                out.class("options-split-over-several-instances");
+                ctx.record(rig.sub(), &case, &out);
+                if let Some(f) = out.fail {
+                    if ctx.is_known(&f.sig) {
+                        ctx.known_hit(&f.sig);
+                    } else {
+                        // name the one frame that does it
+                        let culprit = chunk.iter().find(|b| {
+                            let one = DhcpWireCase { hostile: vec![HexBytes((*b).clone())] };
+                            exec_one(&rig, &one).fail.is_some()
+                        });
+                        let case = match culprit {
+                            Some(b) => DhcpWireCase { hostile: vec![HexBytes(b.clone())] },
+                            None => case,
+                        };
+                        ctx.violation(rig.sub(), &f, &case);
+                        return;
+                    }
+                }
+            }
+            run_wire(ctx, &rig, hostile_dhcp_strategy(), ctx.tier.pick(24, 400), 1)
+        }
         Err(e) => ctx.assume(format!("DHCP wire tier unavailable: {}", e)),
     }
 }
@@ -1017,8 +1057,108 @@ pub fn run_c12_wire(ctx: &Ctx) {
                 (0..16).flat_map(|b| [1u16 << b, !(1u16 << b)]).chain([0, 0xffff, 0x8080, 0x7f7f]).collect()
             };
             run_flags_and_lease_times(ctx, &rig, &flags);
+            drop(rig);
+            if ctx.violations.lock().unwrap().is_empty() {
+                run_c12_big_replies(ctx);
+            }
         }
         Err(e) => ctx.assume(format!("DHCP wire tier unavailable: {}", e)),
+    }
+}
+
+/// C12 on the wire, replies of every size up to and beyond what one frame on the link carries: a
+/// configuration with a long search list and portal URL, clients asking for them.  Whatever
+/// frame comes back is judged in full (lengths, checksums, option walk up to the end option,
+/// the values of options 119 and 114); a reply that does not fit the link cannot be sent and no
+/// frame is then the expected outcome.
+pub fn run_c12_big_replies(ctx: &Ctx) {
+    let raw = match RawIf::open("cli0") {
+        Ok(r) => r,
+        Err(e) => {
+            ctx.assume(format!("wire tier unavailable: {}", e));
+            return;
+        }
+    };
+    let confs: Vec<(usize, usize)> = if ctx.tier == Tier::Quick {
+        vec![(4, 40), (16, 200), (19, 120), (20, 250), (21, 30), (22, 180), (24, 250)]
+    } else {
+        (0..=26).flat_map(|d| [(d, 20usize), (d, 135), (d, 250)]).collect()
+    };
+    let mut k = 0u32;
+    for (ndom, urllen) in confs {
+        // domains that share no suffix (nothing for a compressing encoder to fold)
+        let doms: Vec<String> = (0..ndom).map(|i| format!("{}.t{:02}x", "d".repeat(40 + (i * 7) % 17), i)).collect();
+        let url = format!("https://portal.example/{}", "p".repeat(urllen.saturating_sub(23)));
+        let extra = format!(
+            "dns-search: [{}]\ncaptive-portal: \"{}\"\n",
+            doms.iter().map(|d| format!("\"{}\"", d)).collect::<Vec<_>>().join(", "),
+            url
+        );
+        wipe_db();
+        let mut srv = match NetServer::start("erbium-dhcp", &base_conf(&extra), "warn") {
+            Ok(s) => s,
+            Err(e) => {
+                ctx.assume(format!("DHCP wire tier unavailable: {}", e));
+                return;
+            }
+        };
+        if let Err(e) = srv.wait_dhcp_ready(&raw) {
+            ctx.assume(format!("DHCP wire tier unavailable: {}", e));
+            return;
+        }
+        for (pi, pl) in [vec![119u8, 114], vec![119], vec![114, 1, 3, 6], vec![1, 3, 6, 15, 26, 28, 51, 58, 59, 119, 114, 121]].iter().enumerate() {
+            k += 1;
+            let mut out = Outcome::default();
+            out.nontrivial = true;
+            let case = serde_json::json!({"search_domains": ndom, "portal_url_octets": url.len(), "parameter_list": pl, "n": k});
+            let mut d = discover(9000 + k as usize, 0x6000_0000 + k, if pi % 2 == 0 { 0x8000 } else { 0 });
+            d.options.push((wire::OPT_PARAM_LIST, pl.clone()));
+            match dhcp_exchange(&raw, &d, Duration::from_secs(2)) {
+                None => {
+                    // nothing on the wire: fine for a reply larger than the link carries, as
+                    // long as the server is still there for the next client
+                    out.class("no-frame-for-a-reply-that-may-exceed-the-link");
+                    let small = discover(9500 + k as usize, 0x6100_0000 + k, 0x8000);
+                    match dhcp_exchange(&raw, &small, Duration::from_secs(3)) {
+                        Some(Ok(_)) => {}
+                        other => out.fail("C12:wire:server-gone-after-a-large-reply", format!("{:?}; {}", other.map(|r| r.map(|_| ())), srv.stderr_tail())),
+                    }
+                }
+                Some(Err((tag, d))) => out.fail(format!("C12:frame:{}", tag), format!("{} (search list of {} domains, URL of {} octets, parameter list {:?})", d, ndom, url.len(), pl)),
+                Some(Ok(fr)) => {
+                    let len = fr.frame.payload.len();
+                    out.class(if len > 1200 { "reply-longer-than-1200-octets" } else if len > 576 { "reply-longer-than-576-octets" } else { "reply-up-to-576-octets" });
+                    if pl.contains(&114) {
+                        match fr.msg.opt(114) {
+                            Some(v) if v == url.as_bytes() => {}
+                            other => out.fail("C12:wire:option-value-differs", format!("option 114: {:?} octets on the wire, {} configured", other.map(|v| v.len()), url.len())),
+                        }
+                    }
+                    if pl.contains(&119) && ndom > 0 {
+                        let want: Vec<u8> = doms
+                            .iter()
+                            .flat_map(|d| {
+                                let mut v: Vec<u8> = d.split('.').flat_map(|l| std::iter::once(l.len() as u8).chain(l.bytes())).collect();
+                                v.push(0);
+                                v
+                            })
+                            .collect();
+                        match fr.msg.opt(119) {
+                            Some(v) if v == want => {}
+                            other => out.fail("C12:wire:option-value-differs", format!("option 119: {:?} octets on the wire, {} expected", other.map(|v| v.len()), want.len())),
+                        }
+                    }
+                }
+            }
+            if let Some((line, msg)) = srv.panics().first() {
+                out.fail("server-panic", format!("{} {}", line, msg));
+            }
+            ctx.record("wire-large-replies", &case, &out);
+            if let Some(f) = out.fail {
+                ctx.violation("wire-large-replies", &f, &case);
+                return;
+            }
+        }
     }
 }
 
